@@ -32,6 +32,70 @@ if TYPE_CHECKING:
     from optyx.problem import Problem
 
 
+_NOT_A_VECTOR_NODE = object()
+
+
+def _natural_power(power: object) -> Optional[int]:
+    """Exponent as a natural number, or None if it is not one."""
+    p = float(power)  # type: ignore[arg-type]
+    if not p.is_integer() or p < 0:
+        return None
+    return int(p)
+
+
+def _vector_degree(vector: object) -> Optional[int]:
+    """Largest degree among a vector's elements (None if any is non-polynomial)."""
+    if hasattr(vector, "_variables"):
+        return 1
+    if hasattr(vector, "_expressions"):
+        max_deg = 0
+        for sub_expr in vector._expressions:  # type: ignore[attr-defined]
+            d = compute_degree(sub_expr)
+            if d is None:
+                return None
+            max_deg = max(max_deg, d)
+        return max_deg
+    return None
+
+
+def _vector_node_degree(node: object) -> object:
+    """Degree of a flat vector reduction node (shared by both traversals).
+
+    Returns _NOT_A_VECTOR_NODE if ``node`` is not one of these node kinds.
+    """
+    from optyx.core.matrices import QuadraticForm
+    from optyx.core.vectors import (
+        DotProduct,
+        LinearCombination,
+        VectorSum,
+        VectorPowerSum,
+        VectorUnarySum,
+        ElementwisePower,
+        ElementwiseUnary,
+    )
+
+    if isinstance(node, (LinearCombination, VectorSum)):
+        return _vector_degree(node.vector)
+    if isinstance(node, DotProduct):
+        left_deg = _vector_degree(node.left)
+        right_deg = _vector_degree(node.right)
+        if left_deg is None or right_deg is None:
+            return None
+        return max(2, left_deg + right_deg)
+    if isinstance(node, QuadraticForm):
+        vec_deg = _vector_degree(node.vector)
+        if vec_deg is None:
+            return None
+        return max(2, 2 * vec_deg)
+    if isinstance(node, (VectorPowerSum, ElementwisePower)):
+        # sum(x ** k) is a polynomial only for natural k
+        return _natural_power(node.power)
+    if isinstance(node, (VectorUnarySum, ElementwiseUnary)):
+        # sum(sin(x)), sum(exp(x)) etc. are non-polynomial
+        return None
+    return _NOT_A_VECTOR_NODE
+
+
 def compute_degree(expr: Expression) -> Optional[int]:
     """Compute the polynomial degree of an expression.
 
@@ -97,17 +161,6 @@ def _compute_degree_iterative(expr: Expression) -> Optional[int]:
 
     Handles deep expression trees that would cause RecursionError.
     """
-    from optyx.core.matrices import QuadraticForm
-    from optyx.core.vectors import (
-        DotProduct,
-        LinearCombination,
-        VectorSum,
-        VectorPowerSum,
-        VectorUnarySum,
-        ElementwisePower,
-        ElementwiseUnary,
-    )
-
     # Stack: (expression, phase, left_result, right_result)
     # phase 0: first visit, phase 1: left done, phase 2: both done
     stack: list[tuple[Expression, int, Optional[int], Optional[int]]] = [
@@ -126,34 +179,10 @@ def _compute_degree_iterative(expr: Expression) -> Optional[int]:
             result_stack.append(1)
             continue
 
-        # Vector expressions - these have known degrees
-        if isinstance(node, LinearCombination):
-            result_stack.append(1)
-            continue
-        if isinstance(node, VectorSum):
-            result_stack.append(1)
-            continue
-        if isinstance(node, DotProduct):
-            result_stack.append(2)
-            continue
-        if isinstance(node, QuadraticForm):
-            result_stack.append(2)
-            continue
-        if isinstance(node, VectorPowerSum):
-            # sum(x ** k) has degree k
-            result_stack.append(int(node.power))
-            continue
-        if isinstance(node, VectorUnarySum):
-            # sum(sin(x)), sum(exp(x)) etc. are non-polynomial
-            result_stack.append(None)
-            continue
-        if isinstance(node, ElementwisePower):
-            # x ** k has degree k
-            result_stack.append(int(node.power))
-            continue
-        if isinstance(node, ElementwiseUnary):
-            # sin(x), exp(x) etc. are non-polynomial
-            result_stack.append(None)
+        # Vector expressions - flat nodes with element-aware degrees
+        vec_deg = _vector_node_degree(node)
+        if vec_deg is not _NOT_A_VECTOR_NODE:
+            result_stack.append(vec_deg)  # type: ignore[arg-type]
             continue
 
         # Unary operations
@@ -248,70 +277,16 @@ def _compute_degree_cached(expr_id: int, expr: Expression) -> Optional[int]:
 
 def _compute_degree_impl(expr: Expression) -> Optional[int]:
     """Core degree computation with early termination."""
-    from optyx.core.matrices import QuadraticForm
-    from optyx.core.vectors import (
-        DotProduct,
-        LinearCombination,
-        VectorSum,
-        VectorPowerSum,
-        VectorUnarySum,
-        ElementwisePower,
-        ElementwiseUnary,
-    )
-
     # Fast path: leaf nodes (most common)
     if isinstance(expr, Constant):
         return 0
     if isinstance(expr, Variable):
         return 1
 
-    # Vector expressions
-    if isinstance(expr, LinearCombination):
-        # Check if vector contains variables (degree 1) or expressions
-        if hasattr(expr.vector, "_variables"):
-            return 1
-        # Check expressions in vector (VectorExpression case)
-        if hasattr(expr.vector, "_expressions"):
-            max_deg = 0
-            for sub_expr in expr.vector._expressions:  # type: ignore[union-attr]
-                d = _compute_degree_impl(sub_expr)
-                if d is None:
-                    return None
-                max_deg = max(max_deg, d)
-            return max_deg
-        return 1  # Default for unknown vector types
-
-    if isinstance(expr, VectorSum):
-        if hasattr(expr.vector, "_variables"):
-            return 1
-        if hasattr(expr.vector, "_expressions"):
-            max_deg = 0
-            for sub_expr in expr.vector._expressions:  # type: ignore[union-attr]
-                d = _compute_degree_impl(sub_expr)
-                if d is None:
-                    return None
-                max_deg = max(max_deg, d)
-            return max_deg
-        return 1  # Default for unknown vector types
-    if isinstance(expr, DotProduct):
-        # x · y could be quadratic if both are variables
-        # For now, return 2 (quadratic) as worst case
-        return 2
-    if isinstance(expr, QuadraticForm):
-        # xᵀAx is always quadratic
-        return 2
-    if isinstance(expr, VectorPowerSum):
-        # sum(x ** k) has degree k
-        return int(expr.power)
-    if isinstance(expr, VectorUnarySum):
-        # sum(sin(x)), sum(exp(x)) etc. are non-polynomial
-        return None
-    if isinstance(expr, ElementwisePower):
-        # x ** k has degree k
-        return int(expr.power)
-    if isinstance(expr, ElementwiseUnary):
-        # sin(x), exp(x) etc. are non-polynomial
-        return None
+    # Vector expressions - flat nodes with element-aware degrees
+    vec_deg = _vector_node_degree(expr)
+    if vec_deg is not _NOT_A_VECTOR_NODE:
+        return vec_deg  # type: ignore[return-value]
 
     # Binary operations - early termination on None
     if isinstance(expr, BinaryOp):
